@@ -112,6 +112,8 @@ type LockingStreamer struct {
 
 	mu    sync.Mutex
 	timer *time.Timer
+
+	vid uint64 // verification correlation id (always 0 without the verif build tag)
 }
 
 // NewLockingStreamer returns a new LockingStreamer. If timeout > 0, the
@@ -124,7 +126,9 @@ func NewLockingStreamer(rc io.ReadCloser, str *Store, timeout time.Duration) *Lo
 		timeout:    timeout,
 		timedOut:   rsync.NewAtomicBool(),
 		closed:     rsync.NewAtomicBool(),
+		vid:        vhook.ID(),
 	}
+	vhook.Trace(str.dir, "ls.open", "ls", l.vid)
 	l.lastRead.Store(time.Now().UnixNano())
 	if timeout > 0 {
 		l.timer = time.AfterFunc(timeout, l.checkIdle)
@@ -149,15 +153,19 @@ func (l *LockingStreamer) Read(p []byte) (int, error) {
 
 // Close closes the Snapshot and releases the Snapshot Store lock.
 func (l *LockingStreamer) Close() error {
+	vhook.Gate("ls.close", l.vid)
 	l.mu.Lock()
 	defer l.mu.Unlock()
 	if l.closed.Is() {
+		vhook.Trace(l.str.dir, "ls.noop", "ls", l.vid, "by", "close")
 		return nil
 	}
 	l.closed.Set()
+	vhook.Trace(l.str.dir, "ls.close", "ls", l.vid, "by", "close")
 	if l.timer != nil {
 		l.timer.Stop()
 	}
+	defer vhook.Trace(l.str.dir, "ls.released", "ls", l.vid, "by", "close")
 	defer l.str.mrsw.EndRead()
 	return l.ReadCloser.Close()
 }
@@ -167,25 +175,30 @@ func (l *LockingStreamer) Close() error {
 // Snapshot Store read lock is released. Otherwise the timer is re-armed
 // for the remaining idle window.
 func (l *LockingStreamer) checkIdle() {
+	vhook.Gate("ls.idle", l.vid)
 	l.mu.Lock()
 	defer l.mu.Unlock()
 	if l.closed.Is() {
+		vhook.Trace(l.str.dir, "ls.noop", "ls", l.vid, "by", "idle")
 		return
 	}
 	last := time.Unix(0, l.lastRead.Load())
 	idle := time.Since(last)
 	if idle < l.timeout {
 		l.timer.Reset(l.timeout - idle)
+		vhook.Trace(l.str.dir, "ls.rearm", "ls", l.vid)
 		return
 	}
 	l.timedOut.Set()
 	l.closed.Set()
+	vhook.Trace(l.str.dir, "ls.close", "ls", l.vid, "by", "idle")
 	stats.Add(readTimeoutTotal, 1)
 	l.str.logger.Printf("snapshot reader idle for %s, forcing close", idle)
 	if closeErr := l.ReadCloser.Close(); closeErr != nil {
 		l.str.logger.Printf("error closing idle snapshot reader: %s", closeErr)
 	}
 	l.str.mrsw.EndRead()
+	vhook.Trace(l.str.dir, "ls.released", "ls", l.vid, "by", "idle")
 }
 
 // Store stores snapshots in the Raft system.
@@ -667,9 +680,13 @@ func (s *Store) executeReapPlan(p *plan.Plan, planPath string) (int, int, error)
 	defer recordDuration(reapExecuteDuration, startT)
 
 	executor := plan.NewExecutor()
+	vhook.Trace(s.dir, "reap.mutate", "ops", p.Len())
+	vhook.Gate("reap.mutate", s.dir)
 	if err := p.Execute(executor); err != nil {
+		vhook.Trace(s.dir, "reap.done", "ok", false)
 		return 0, 0, fmt.Errorf("executing reap plan: %w", err)
 	}
+	vhook.Trace(s.dir, "reap.done", "ok", true)
 
 	if err := fsutil.SyncDirMaybe(s.dir); err != nil {
 		return 0, 0, fmt.Errorf("syncing store dir: %w", err)
@@ -800,8 +817,10 @@ func (s *Store) reapLoop() {
 		startT := time.Now()
 		n, c, err := func() (int, int, error) {
 			defer recordDuration(autoReapDuration, startT)
+			vhook.Gate("reap.acquire", s.dir)
 			s.mrsw.BeginWriteBlocking("reap")
 			defer s.mrsw.EndWrite()
+			defer vhook.Gate("reap.release", s.dir)
 			return s.reap()
 		}()
 		if err != nil {
